@@ -36,6 +36,7 @@ def bump (n : Nat) : Nat := if n + 1 > 7 then 0 else n + 1
 
 def iName : String := "InformationFrame"
 def uaName : String := "UnNumberedAcknowledgmentFrame"
+def rrName : String := "ReceiveReadyFrame"
 
 /-- `HdlcConnection.send(frame)`. -/
 def send (T : Tables) (s : St) (k : String) (ssn rsn : Nat) : St × Res :=
@@ -67,6 +68,11 @@ def recv (T : Tables) (s : St) (k : String) (ssn rsn : Nat) : St × Res :=
           | none => (s, .err .protocol)
           | some st' =>
             ({ s with state := st', serverRsn := bump s.serverRsn, clientSsn := bump s.clientSsn }, .accepted)
-      else (s, .err .decode)                       -- control byte is not an I control byte
+      else if pm == "read_response_frame" && k == rrName then
+        -- not an information control byte: tried as receive-ready (acknowledges a segment; no counter moves)
+        match lookup T.transitions s.state k with
+        | none => (s, .err .protocol)
+        | some st' => ({ s with state := st' }, .accepted)
+      else (s, .err .decode)                       -- control byte is not an I (/ RR) control byte
 
 end Model.Link
